@@ -112,7 +112,9 @@ func (e *PreparedStatementsQuery) onPrepare(ctx context.Context, prepareQuery *s
 	if !ok {
 		if ident, ok := prepareQuery.PreparedStatementQuery.(sqlparser.TableIdent); ok {
 			logrus.Debugln("Got PreparedStatement with SetArg query")
-			setArgStmt, err := e.proxyHandler.registry.StatementByID(ident.String())
+			// onSet keeps the statement under the lower-cased name of the variable (names of user variables are
+			// not case sensitive)
+			setArgStmt, err := e.proxyHandler.registry.StatementByID(ident.Lowered())
 			if err != nil {
 				logrus.WithField(logging.FieldKeyEventCode, logging.EventCodeErrorGeneral).
 					WithError(err).Errorln("SetArg PreparedStatement not in registry")
